@@ -2,6 +2,7 @@
 //! implementation in /repo (path dependency, rebuilt from the working tree on every check).
 mod codec;
 mod content;
+mod entries;
 mod gen;
 mod out;
 
@@ -46,6 +47,10 @@ fn run_one(v: Value) {
         "content" => {
             let s: content::Scn = serde_json::from_value(v).expect("bad content scenario");
             content::run(&s);
+        }
+        "entries" => {
+            let s: entries::Scn = serde_json::from_value(v).expect("bad entries scenario");
+            entries::run(&s);
         }
         k => panic!("unknown scenario kind {k}"),
     }
